@@ -24,12 +24,13 @@ Streams (key of the violation in brackets):
   [intangle]  sdh_phi_typed (ang, ang_sub)        vs the same spy, integer-typed / float-typed angles
   [point]     point_obj_call / point_scat_nd      vs PointSourceScat(vL, vT)(inc, out, f[, to_compute]) (all values)
   [crack]     crack_2d_scat_nd, crack_obj_call    vs arim.scat.crack_2d_scat(..., assume_safe_for_opt=, to_compute=) and
-                                                     CrackCentreScat(...)(...) with the flag False / set to True
+                                                     CrackCentreScat(...)(...) with the flag False / set to True,
+                                                     incl. the IndexError of inc_theta[0] (optimised driver, no row)
   [history]   crack_step / crack_run / crack_init_flag / res_ok over histories of public calls on ONE CrackCentreScat
               (plain calls incl. raising ones, as_single_freq_matrices, as_multi_freq_matrices), the flag after every step
                                                   vs the object's results and _in_matrix_calculation after every step;
-              ONLY histories in which no matrix request raises (the library resets the flag in a `finally` since /repo
-              3989d85; the model's with_matrix_flag describes the code before that repair on a failing request)
+              histories WITH matrix requests that raise (invalid key, numangles = 0) included: the library resets the
+              flag in a `finally` (/repo 3989d85) and so does the model's with_matrix_flag
   [wrapper]   partial_one_scat_key, as_angles_funcs, as_freq_angles_funcs (four call spellings, TypeError, KeyError)
                                                   vs obj.as_angles_funcs(f)[k], obj.as_freq_angles_funcs()[k],
                                                      arim.scat._partial_one_scat_key(obj, k[, frequency=f]) on the three objects
@@ -53,7 +54,7 @@ CORR = {
     "intangle": "sdh_phi_typed vs the argument of cos in arim.scat.sdh_2d_scat on integer-typed angles",
     "point": "point_obj_call vs arim.scat.PointSourceScat.__call__",
     "crack": "crack_2d_scat_nd / crack_obj_call (oracle kernels = the library's scalar calls) vs arim.scat.crack_2d_scat / CrackCentreScat.__call__",
-    "history": "crack_step / crack_run (histories without a raising matrix request) vs CrackCentreScat: results and _in_matrix_calculation",
+    "history": "crack_step / crack_run (any history, raising matrix requests included) vs CrackCentreScat: results and _in_matrix_calculation",
     "wrapper": "partial_one_scat_key / as_angles_funcs / as_freq_angles_funcs vs Scattering2d.as_angles_funcs / as_freq_angles_funcs / _partial_one_scat_key",
     "matrices": "as_single_freq_matrices / as_multi_freq_matrices vs Scattering2d.as_single_freq_matrices / as_multi_freq_matrices",
 }
@@ -785,6 +786,8 @@ def run(chk, arim, rng, quick):
                      "frequency": f, "assume_safe_for_opt": safe, "to_compute": repr(tc_py),
                      "library": {"error": e, "result": [(k, np.asarray(v)) for k, v in items]}})
         cnt("crack:" + ("error" if e[0] else "ok") + (":opt" if safe else ":general") + (":obj" if via else ":func"))
+        if e[0] == 3:
+            cnt("crack:IndexError-no-row")
 
     allk = (list(KEYS), list(KEYS), False)
     p6 = (free * 6)[:8]
@@ -792,7 +795,13 @@ def run(chk, arim, rng, quick):
                ([3], [], True, allk), ([2, 1], [3], False, allk), ([2, 1], [3], True, allk), ([], [], True, allk),
                ([2, 2, 2], [], False, (["XX"], ["XX"], False)), ([2, 2, 2], [], False, allk), ([1, 1, 2], [], False, allk),
                ([2], [3], False, allk), ([2], [3], False, (["XX"], ["XX"], False)), ([3], [2, 1], False, (["LL"], ["LL"], False)),
-               ([2, 2], [2, 2], True, (["TT"], ["TT"], False)), ([2, 3], [1, 3], True, ([], [], False))]
+               ([2, 2], [2, 2], True, (["TT"], ["TT"], False)), ([2, 3], [1, 3], True, ([], [], False)),
+               # no row in the computed 2-d arrays: IndexError of inc_theta[0] with the optimised driver only; a vector
+               # of length 0 is computed as (1, 0) and raises nothing; ValueError / NotImplementedError come first
+               ([0, 2], [], True, allk), ([0, 2], [], False, allk), ([0, 2], [2], True, (["LT"], ["LT"], False)),
+               ([0, 1], [3], True, allk), ([0, 0], [0, 0], True, allk), ([1], [0, 1], True, allk), ([0], [], True, allk),
+               ([0], [0], False, allk), ([0, 2], [], True, (["XX"], ["XX"], False)), ([0, 2], [3], True, allk),
+               ([2, 0, 2], [], True, allk), ([1, 0], [], True, allk), ([2, 0], [], True, allk)]
     for a, b, safe, tcs in fixed_c:
         crack_case(a, b, p6[:int(np.prod(a))], p6[::-1][:int(np.prod(b))], fpool[1], safe, tcs, 0)
     for i in range(70 * mult):
@@ -800,15 +809,6 @@ def run(chk, arim, rng, quick):
         maxdim = 2 if r < 0.8 else 3
         a, b = gen_shapes(rng, maxdim=maxdim, compatible=rng.random() < 0.85, zero_ok=True)
         safe = bool(rng.random() < 0.5)
-        if safe:
-            # MODEL RESTRICTION: with the optimised driver an empty first axis of the computed 2-d arrays makes the
-            # library raise IndexError (inc_theta[0], scat.py:420); the model answers empty arrays.  Not generated.
-            try:
-                s = np.broadcast_shapes(tuple(a), tuple(b))
-                if len(s) <= 2 and (np.atleast_2d(np.zeros(s)).shape[0] == 0):
-                    safe = False
-            except ValueError:
-                pass
         tcs = gen_tc(rng, valid=rng.random() < 0.8, allow_str=True)
         crack_case(a, b, pool_vals(int(np.prod(a))), pool_vals(int(np.prod(b))), fpool[int(rng.integers(0, 3))], safe, tcs,
                    int(rng.random() < 0.4))
@@ -823,7 +823,7 @@ def run(chk, arim, rng, quick):
                      clist(tc_model, cstr))
 
     def history(ops_spec):
-        """ops_spec: list of dicts; runs them on one fresh object; stops after a matrix request that raises"""
+        """ops_spec: list of dicts; runs them all on one fresh object"""
         obj = lib_crack_obj()
         ops, steps, rep_ops = [], [], []
         flag0 = bool(obj._in_matrix_calculation)
@@ -854,10 +854,10 @@ def run(chk, arim, rng, quick):
                             "library": {"error": e, "flag_after": bool(flag), "returned_None": bool(kind),
                                         "result": [(k, np.asarray(v)) for k, v in items]}})
             cnt("history:" + sp["op"] + (":error" if e[0] else ":ok"))
-            if sp["op"] != "call" and e[0]:
-                # a matrix request raised: from here on the model describes the code before the repair 3989d85
-                cnt("history:truncated-after-raising-matrix-request")
-                break
+            if e[0] == 3:
+                cnt("history:" + sp["op"] + ":IndexError-numangles-0")
+            if sp["op"] != "call" and e[0] and sp is not ops_spec[-1]:
+                cnt("history:continued-after-raising-matrix-request")
         lits.append(cpair(cbool(flag0), clist([enc_op(o) for o in ops]), clist(steps), cfloat(TOL)))
         reps.append({"config": crack_cfg, "object": "CrackCentreScat(crack_length, vL, vT, density), fresh",
                      "flag_of_the_fresh_object": flag0, "history": rep_ops})
@@ -871,15 +871,20 @@ def run(chk, arim, rng, quick):
         return {"op": "call", "a": a, "b": b, "iv": pool_vals(int(np.prod(a))), "ov": pool_vals(int(np.prod(b))),
                 "f": fpool[int(rng.integers(0, 3))], "tc": gen_tc(rng, valid=valid)}
 
+    def gen_n():
+        # numangles = 0: the grid has the shape (0, 0) and the matrix request raises IndexError (inc_theta[0])
+        return 0 if rng.random() < 0.12 else int(rng.integers(1, NMAX + 1))
+
     def single_spec():
-        return {"op": "single", "f": fpool[int(rng.integers(0, 3))], "n": int(rng.integers(1, NMAX + 1)), "tc": gen_tc(rng)}
+        return {"op": "single", "f": fpool[int(rng.integers(0, 3))], "n": gen_n(),
+                "tc": gen_tc(rng, valid=rng.random() < 0.8)}
 
     def multi_spec():
         nf = int(rng.integers(0, 4))
         # an empty sequence of frequencies returns None without raising, whatever to_compute holds
-        tcs = gen_tc(rng, valid=False) if (nf == 0 and rng.random() < 0.5) else gen_tc(rng)
+        tcs = gen_tc(rng, valid=False) if (nf == 0 and rng.random() < 0.5) else gen_tc(rng, valid=rng.random() < 0.8)
         fs = [fpool[int(i)] for i in (rng.permutation(3)[:nf] if rng.random() < 0.7 else rng.integers(0, 3, size=nf))]
-        return {"op": "multi", "fs": fs, "n": int(rng.integers(1, NMAX + 1)),
+        return {"op": "multi", "fs": fs, "n": gen_n(),
                 "tc": tcs, "fs_list": bool(rng.random() < 0.7)}
 
     inc22 = {"a": [2, 2], "b": [2, 2], "iv": p6[:4], "ov": p6[2:6]}
@@ -890,6 +895,15 @@ def run(chk, arim, rng, quick):
              dict(op="multi", fs=[], n=2, tc=(["XX"], ["XX"], False)), call22])
     history([call22])
     history([])
+    # matrix requests that raise (invalid key; numangles = 0), each followed by a plain call on several rows: the flag is
+    # False again and the call is evaluated by the general driver (the witness of the defect repaired by /repo 3989d85)
+    history([dict(op="single", f=fpool[0], n=4, tc=(["XX"], ["XX"], False)), call22])
+    history([dict(op="multi", fs=[fpool[0]], n=3, tc=(["LL", "XX"], ["LL", "XX"], False)), call22,
+             dict(op="single", f=fpool[1], n=0, tc=allk), call22,
+             dict(op="multi", fs=[fpool[0], fpool[1]], n=0, tc=(["TT"], ["TT"], False)), call22,
+             dict(op="multi", fs=[], n=0, tc=allk), call22,
+             dict(op="single", f=fpool[1], n=0, tc=(["XX"], ["XX"], False)),
+             dict(op="single", f=fpool[2], n=2, tc=allk), call22])
     for i in range(28 * mult):
         m = int(rng.integers(1, 6))
         spec = []
